@@ -69,6 +69,19 @@ def enrich(spec, gen, rng: random.Random, feats: set) -> None:
     if rng.random() < 0.4:
         spec.schema_description = rng.choice(["Schema description", "Multi\nline schema \"desc\""])
         feats.add("schema.description")
+    # federation-style names with one leading underscore (legal; only two leading underscores are reserved)
+    if rng.random() < 0.35:
+        from ..gen.schema import Arg, Field
+        spec.scalars.append("_Any")
+        members = [n for n in spec.objects if n not in spec.roots.values()][:2]
+        spec.objects["_Service"] = ([], [Field("sdl", "String")])
+        if members:
+            spec.unions["_Entity"] = members
+        q = spec.roots["query"]
+        spec.objects[q][1].append(Field("_service", "_Service!"))
+        if members:
+            spec.objects[q][1].append(Field("_entities", "[_Entity]!", [Arg("representations", "[_Any!]!")]))
+        feats.add("names.type_leading_underscore")
     # float extremes as defaults
     for fields in spec.inputs.values():
         for a in fields:
